@@ -60,6 +60,12 @@ void verif_garbage(void* p, uint64_t n) {
   unsigned char* q = (unsigned char*)p;
   for (uint64_t i = 0; i < n; i++) q[i] = (n <= 4096) ? (unsigned char)next("g8") : (unsigned char)(0xA5 ^ (i * 29));
 }
+void verif_spec_reset(const char* s) { (void)s; }
+void verif_spec_set(const char* f, uint64_t i, uint64_t v) { (void)f; (void)i; (void)v; }
+uint64_t verif_spec_get(const char* f, uint64_t i) { (void)f; (void)i; return (uint64_t)next("s64"); }
+uint64_t verif_spec_call(const char* f, uint64_t a0, uint64_t a1, uint64_t a2, uint64_t a3) {
+  (void)f; (void)a0; (void)a1; (void)a2; (void)a3; return (uint64_t)next("s64");
+}
 int verif_same_bytes(const void* p, const void* q, uint64_t n) { return memcmp(p, q, n) == 0; }
 
 #ifndef VERIF_HARNESS
